@@ -326,6 +326,19 @@ def run(ck):
     for i in range(8 if not ck.thorough() else 80):
         if ck.mine(i + 1):
             c02_.busy_gateway_case(ck, base + 999 + i, 10 + 12 * (i % 4), ck.rng('busy-gw', i))
+    # the daemon's own IKE_SA rekey answered by an authentic message that cannot be accepted (C10's family): whichever IKE_SA leaves the table takes its kernel SAs along,
+    # and what stays in the kernel is owned by an IKE_SA of the table
+    from vf.checks import c10 as c10_
+    for i in range(len(c10_.BAD_REKEY_ANSWERS) if not ck.thorough() else 20 * len(c10_.BAD_REKEY_ANSWERS)):
+        if ck.mine(i + 3):
+            r_ = c10_.unacceptable_ike_rekey_answer(ck, [tab], base + 1111, i)
+            if r_ is not None:
+                sim_, a_ = r_
+                ck.count('bad_rekey_answer.ownership_checked')
+                tracked = {bytes(c_.inbound_spi) for x_ in a_.ctl.ike_sas for c_ in x_.child_sas} | {bytes(c_.outbound_spi) for x_ in a_.ctl.ike_sas for c_ in x_.child_sas}
+                orphans = [repr(k_) for k_ in a_.kernel.sad if k_[2] not in tracked]
+                if orphans:
+                    ck.violation('kernel-sas-owned-by-no-ike-sa-of-the-table:after-an-unacceptable-answer-to-the-ike-sa-rekey', {'orphans': orphans[:6], 'table': [x_.state.name for x_ in a_.ctl.ike_sas]}, sim_.case)
     for i in range(40 if not ck.thorough() else 800):
         if ck.mine(i + 2):
             crossing_with_queued_notices(ck, [tab, exp], base + 888, i)
@@ -816,6 +829,7 @@ def run(ck):
 def verdict(ck):
     ck.floor('EXPIRE notices queued while a request was in flight and the peer\'s own request crossed it', ck.counters['crossing_queued.notices_queued'], 25)
     ck.floor('requests to a multi-homed gateway between a pair of addresses that has no connection', ck.counters['busy_gateway.pair_without_a_connection'] + ck.counters['busy_gateway.not_answered'], 6)
+    ck.floor('ownership of the kernel SAs checked after an unacceptable answer to the daemon\'s IKE_SA rekey', ck.counters['bad_rekey_answer.ownership_checked'], 10)
     ck.floor('IKE_SAs with several CHILD_SAs that ended, table and kernel empty afterwards', ck.counters['ends.table_and_kernel_empty'], 24)
     ck.floor('IKE_SAs ended by an authentic message with an odd SPI size, kernel SAs compared', ck.counters['odd_spi.sad_equals_tracked'], 24)
     ck.floor('status queries between the single steps of histories that start before the handshake', ck.counters['status.queries_between_single_steps'], 400)
